@@ -20,6 +20,7 @@ func init() {
 			ID: "C17",
 			Explanation: "Structural clauses of the direct-invoke path. History independence (R-DEFASSIGN): in ReceiveDirectInvoke every package-level per-request setting is stored with its default before it is read or conditionally overridden in the same activation, on every path (the payload limit and the response mode unconditionally, rate and burst on every path through the streaming block, which is the only region whose consumers read them). Token validation: the success return is dominated by the passing edges of the four comparisons (id, reservation token, version, invack deadline), every failing edge renders 400 with the matching error and returns it, and the rate/burst range checks use the documented constants with <= on both sides. " +
 				"Classification: a restricted copy reads through LimitReader(payload, limit+1), 'oversized' is exactly copied > limit, the End-Of-Response trailer is set exactly once per path with Truncated exactly on a copy error, one result is sent on copyDone and then cancel is called; on a reset the writer is cancelled and the connection closed before the copy result is awaited, the metrics are attached and the reset is acknowledged. Token bucket (necessary for the rate bound): a write happens only after consumeTokens(len(p)) succeeded, tokens are subtracted only when sufficient, under the bucket mutex, refill is min(count+refill, capacity), writes larger than the capacity are chunked to it, the bucket starts with capacity = initial = burst and refill = rate*125/1000 every 125 ms, and the only unbounded wait is fed by the ticker goroutine that stops only in stop(), called after the copy returned. " +
+				"Added after the blind rounds: refills happen only on a tick; the Trailer header is only added to after its declaration; every response carries the cancellable request. " +
 				"NOT decided: bytes forwarded in order and unaltered; the numeric bound burst + rate x t (ticker timing); all chunkings.",
 			RuleText:    "one obligation per per-request setting, per validation comparison, per trailer store, per ordering step of the reset path, per token-bucket guard/constant",
 			Assumptions: trusted,
